@@ -44,7 +44,7 @@ ASSUMPTIONS = [
 HISTORY_CHECK = True   # last runs of every chunk are re-observed alone in a fresh interpreter
 
 TIERS = {
-    "quick":    {"runs": 3200,   "chunk": 100,  "hash_seeds": [0], "max_steps": 10, "timeout": 900},
+    "quick":    {"runs": 3600,   "chunk": 100,  "hash_seeds": [0], "max_steps": 10, "timeout": 900},
     "thorough": {"history_check_cap": 200, "runs": 32000, "chunk": 400, "max_wall": 2400, "hash_seeds": [0, 11], "max_steps": 12, "timeout": 3400},
     "selftest": {"runs": 160,    "chunk": 20,   "hash_seeds": [0], "max_steps": 10, "timeout": 300},
 }
@@ -114,13 +114,22 @@ def gen_synthetic(rng):
         if rng.random() < 0.7:
             d, _ = zonegen.gen_definition(rng, tzid)
             defs[tzid] = d
+            zl = zonegen.vtimezone_lines(d)
+            r = rng.random()
+            if r < 0.12:
+                # zones as careless producers write them: only one kind of observance, or none at all
+                kind = rng.choice(["DAYLIGHT", "DAYLIGHT", "STANDARD"])
+                zl = [x.replace("STANDARD", kind).replace("DAYLIGHT", kind) if x.startswith(("BEGIN:", "END:")) else x
+                      for x in zl]
+            elif r < 0.15:
+                zl = zl[:2] + zl[-1:]
             if rng.random() < 0.75:
-                lines += zonegen.vtimezone_lines(d)
+                lines += zl
             else:
-                after += zonegen.vtimezone_lines(d)
+                after += zl
 
     def dt(z=True):
-        w = f"{rng.choice([1985, 2020, 2024, 2037]):04}{rng.randint(1, 12):02}{rng.randint(1, 28):02}T{rng.randint(0, 23):02}{rng.choice([0, 30]):02}00"
+        w = f"{rng.choice([1960, 1985, 2020, 2024, 2037]):04}{rng.randint(1, 12):02}{rng.randint(1, 28):02}T{rng.randint(0, 23):02}{rng.choice([0, 30]):02}00"
         r = rng.random()
         if not z or r < 0.3:
             return "", w
@@ -135,7 +144,7 @@ def gen_synthetic(rng):
         p, w = dt()
         lines.append(f"DTSTART{p}:{w}")
         lines.append("DTSTAMP:20200101T000000Z")
-        menu = rng.sample(range(12), rng.randint(2, 7))
+        menu = rng.sample(range(13), rng.randint(2, 7))
         for m in menu:
             if m == 0:
                 lines.append(_fold("SUMMARY:" + rng.choice(["Meeting", "Größe \\, semi\\; and\\nnewline", "日本語" * 20])))
@@ -162,6 +171,14 @@ def gen_synthetic(rng):
                 lines.append(f"EXDATE{p}:{w}")
             elif m == 10:
                 lines.append("SEQUENCE:" + str(rng.randint(0, 9)))
+            elif m == 12:
+                # periods in local time of a zone: start/end and start/duration
+                p, w = dt()
+                end = w[:9] + f"{(int(w[9:11]) + 2) % 24:02}" + w[11:]
+                if kind == "VFREEBUSY":
+                    lines.append(f"FREEBUSY{p}:{w}/{end},{w}/PT90M")
+                else:
+                    lines.append(f"RDATE;VALUE=PERIOD{p}:{w}/{end},{w}/PT90M")
             elif m == 11 and kind in ("VEVENT", "VTODO"):
                 lines += ["BEGIN:VALARM", "ACTION:DISPLAY", "TRIGGER;RELATED=END:-PT15M", "REPEAT:2", "DURATION:PT5M",
                           "DESCRIPTION:alarm", "END:VALARM"]
@@ -209,12 +226,15 @@ DICT_DOC = "\r\n".join([
     "RRULE:FREQ=YEARLY;BYMONTH=10;BYDAY=-1SU", "END:STANDARD", "END:VTIMEZONE",
     "BEGIN:VEVENT", "UID:dict@example.com", "DTSTAMP:20200101T000000Z", "DTSTART;TZID=Sim/Dict:20200310T100000",
     "DTEND;TZID=Sim/Dict:20200310T110000", "RRULE:FREQ=WEEKLY;COUNT=3",
-    "RDATE;TZID=Sim/Dict:20200311T100000,20200312T100000", "SEQUENCE:1", "GEO:1.0;2.0",
+    "RDATE;TZID=Sim/Dict:20200311T100000,20200312T100000",
+    "RDATE;VALUE=PERIOD;TZID=Sim/Dict:19700311T100000/19700311T110000,20200329T013000/20200329T033000",
+    "SEQUENCE:1", "GEO:1.0;2.0",
     "SUMMARY:dictionary event", "CATEGORIES:A,B", "URL:http://example.com/a", "ATTENDEE;CN=Jane:mailto:jane@example.com",
     "ATTACH:http://example.com/file", "END:VEVENT",
     "BEGIN:VTODO", "UID:dict-todo@example.com", "DTSTART;TZID=Sim/Dict:20200310T100000", "DURATION:PT1H",
     "BEGIN:VALARM", "TRIGGER:-PT15M", "ACTION:DISPLAY", "END:VALARM", "END:VTODO",
-    "BEGIN:VFREEBUSY", "UID:dict-fb@example.com", "FREEBUSY:20200310T100000Z/PT1H", "END:VFREEBUSY",
+    "BEGIN:VFREEBUSY", "UID:dict-fb@example.com", "FREEBUSY:20200310T100000Z/PT1H",
+    "FREEBUSY;TZID=Sim/Dict:19700310T100000/19700310T120000,20201025T013000/20201025T033000", "END:VFREEBUSY",
     "END:VCALENDAR", ""])
 
 # (line prefix in DICT_DOC, hostile category, both providers?)
@@ -229,6 +249,8 @@ DICT_TARGETS = [
     ("SEQUENCE:", "number", False), ("GEO:", "number", False),
     ("URL:", "uri", False), ("ATTENDEE;CN=Jane", "uri", False), ("ATTACH:", "uri", False),
     ("SUMMARY:dictionary", "text", False), ("CATEGORIES:A,B", "text", False), ("TZNAME:SDT", "text", True),
+    ("BEGIN:STANDARD", "component", True), ("BEGIN:DAYLIGHT", "component", True),
+    ("RDATE;VALUE=PERIOD", "date", False), ("FREEBUSY;TZID", "date", False),
 ]
 
 
@@ -236,7 +258,8 @@ def dict_combos():
     """Every (target line, hostile value, provider) of the dictionary, in a fixed order."""
     pools = {"rrule": F.HOSTILE_RULES, "date": F.HOSTILE_DATES, "offset": F.HOSTILE_OFFSETS,
              "tzid-prop": F.HOSTILE_TZIDS, "tzid-param": F.HOSTILE_TZIDS, "duration": F.HOSTILE_DURATIONS,
-             "number": F.HOSTILE_NUMBERS, "uri": F.HOSTILE_URIS, "text": F.HOSTILE_TEXTS}
+             "number": F.HOSTILE_NUMBERS, "uri": F.HOSTILE_URIS, "text": F.HOSTILE_TEXTS,
+             "component": F.HOSTILE_COMPONENTS}
     lines = F._lines(DICT_DOC.encode("utf-8"))
     out = []
     for prefix, what, both in DICT_TARGETS:
